@@ -10,9 +10,9 @@ export GOFLAGS=-mod=mod GOPROXY=off GOSUMDB=off GOTOOLCHAIN=local
 BIN=/verif/bin/maddyverif
 for base in $(git -C /repo log --format=%h -12); do
   wt=/tmp/rb_$n.$$
-  git -C /repo worktree add -q --detach $wt $base || exit 2
+  flock /tmp/.verif_wt.lock git -C /repo worktree add -q --detach $wt $base || exit 2
   if git -C $wt apply --check $d 2>/dev/null; then break; fi
-  git -C /repo worktree remove --force $wt; wt=""
+  flock /tmp/.verif_wt.lock git -C /repo worktree remove --force $wt; wt=""
 done
 [ -z "$wt" ] && { echo "$n: applies to none of the last 12 commits"; exit 2; }
 ref=/tmp/refbase_$base; mkdir -p $ref/evidence
@@ -29,4 +29,4 @@ VERIF_ANCHORS_IN=$ref/anchors_index.json VERIF_KEPT_IN=$ref/mustpass_index.json 
   grep -qxF "$k" $ref/baseline.txt || echo "$line" | cut -c1-${3:-400}
 done
 echo "($n analysed on base $base)"
-git -C /repo worktree remove --force $wt; rm -rf $vd
+flock /tmp/.verif_wt.lock git -C /repo worktree remove --force $wt; rm -rf $vd
